@@ -52,7 +52,7 @@ impl<'a> Doc<'a> {
             if two_lines {
                 format!(" doc{}$\n second{}$", g, g)
             } else if exotic {
-                format!(" doc{}\u{2028}x\u{85}y\u{2029}\u{1f600}$", g)
+                format!(" doc{}, (a,b)\u{2028}x\u{85}y\u{2029}\u{1f600}$", g)
             } else {
                 format!(" doc{}$", g)
             }
